@@ -530,6 +530,13 @@ def create_shape(value:float, shape):
         #`t` could also be numpy
         return t.full(shape,value)
 
+def _from_slots(cls, values):
+    #restores an object from the values of its slots. Rewards pickle this way because their
+    #__getstate__ is a string for json which can't hold every kind of action (e.g., a Categorical or nan).
+    obj = cls.__new__(cls)
+    for slot,value in values.items(): setattr(obj,slot,value)
+    return obj
+
 class L1Reward(Rewards):
     """A reward function using L1 distance."""
     __slots__ = ('_argmax',)
@@ -587,6 +594,9 @@ class BinaryReward(Rewards):
             o._argmax == self._argmax and \
             o._value == self._value)
 
+    def __reduce__(self):
+        return _from_slots, (BinaryReward, {slot:getattr(self,slot) for slot in self.__slots__})
+
     def __getstate__(self):
         return repr((self._argmax,) if self._value == 1 else (self._argmax,self._value))
 
@@ -624,6 +634,9 @@ class HammingReward(Rewards):
         value = n_intersect/n_union
 
         return create_shape(value,shape)
+
+    def __reduce__(self):
+        return _from_slots, (HammingReward, {slot:getattr(self,slot) for slot in self.__slots__})
 
     def __getstate__(self):
         return repr(self._argmax)
@@ -695,6 +708,9 @@ class DiscreteReward(Rewards):
             o.actions == self.actions and\
             o.rewards == self.rewards and\
             o._default == self._default)
+
+    def __reduce__(self):
+        return _from_slots, (DiscreteReward, {slot:getattr(self,slot) for slot in self.__slots__})
 
     def __getstate__(self):
         return repr((self._state,self._default))
